@@ -1,5 +1,7 @@
 import Mutagen.Proofs.Executability
 import Mutagen.Proofs.ExecCycle
+import Mutagen.Proofs.Phantom
+import Mutagen.Model.SyncCycle
 /-!
 # C18 — executability survives synchronization through an endpoint that cannot store it
 
@@ -7,7 +9,7 @@ Property theorems only (helper lemmas live in `Mutagen.Proofs.Executability`).
 -/
 namespace Mutagen.Properties.C18
 open Mutagen.Model Mutagen.Proofs Mutagen.Proofs.Executability Mutagen.Proofs.ExecCycle
-  Mutagen.Proofs.ReconcileLeaf Mutagen.Proofs.ReconcileShape
+  Mutagen.Proofs.ReconcileLeaf Mutagen.Proofs.ReconcileShape Mutagen.Proofs.Phantom
 
 /-- `propagate_rules`: for every ancestor `A`, source `S`, target `T` and every
 path `q`, the scalar fields `PropagateExecutability(A, S, T)` records at `q`
@@ -199,6 +201,83 @@ theorem exec_kept_when_content_kept (mode : Mode) (A P N : Option Entry) (nAlpha
       simp [fileWithDigest, leaf, Entry.kind, Entry.props, hkP, hd]
     unfold execRule
     rw [if_pos r1]; rfl
+
+/-!
+## Docker-style ignores: phantom directories
+
+With Docker-style ignore syntax a scan reports an ignored directory that holds
+unignored content as a *phantom* directory. `synchronize` first reifies phantom
+directories (`ReifyPhantomDirectories`), then propagates executability, then
+reconciles — `cycleFromScans` models exactly this order. Executability
+propagation only descends through entries of kind `Directory`, so the order
+matters: the theorems below are about the reified contents.
+-/
+
+/-- The model runs the cycle in the order of the code: reify, then everything
+else (propagation, safety checks, reconciliation) on the reified contents. -/
+theorem cycle_reifies_first (mode : Mode) (portable : Bool) (eps : Endpoints) (A : Option Entry) (α β : Scan) :
+    cycleFromScans mode portable true eps A α β =
+      cycle mode portable eps A { α with content := (reify A α.content β.content).alpha }
+        { β with content := (reify A α.content β.content).beta } := rfl
+
+/-- `exec_preserved_docker`: `exec_preserved` for files below phantom
+directories. `P` and `N` are the *scanned* contents; `q` is a path at which both
+hold a file below directories or phantom directories. After reification (in the
+orientation of the session), propagation onto the reified `N`, reconciliation
+and exact application, the preserving side still holds a file at `q` with the
+executable bit it had — outside the two documented deviations, in every mode. -/
+theorem exec_preserved_docker (mode : Mode) (A P N : Option Entry) (nAlpha : Bool) (q : Path) (pP pN : Props)
+    (hA : oensureValid true A = true) (hP : oensureValid false P = true) (hN : oensureValid false N = true)
+    (hdP : dirKindsAbove P q = true) (hdN : dirKindsAbove N q = true)
+    (hPq : propsAt P q = some pP) (hkP : pP.kind = .file)
+    (hNq : propsAt N q = some pN) (hkN : pN.kind = .file)
+    (h1 : ¬ AlphaNonpreservingWins mode nAlpha (getPath A q) pP pN)
+    (h2 : ¬ ReplicaRevertsToAncestor mode nAlpha (getPath A q) pP pN)
+    (Pr Nr : Option Entry)
+    (hr : (Pr, Nr) = if nAlpha then ((reify A N P).beta, (reify A N P).alpha)
+                     else ((reify A P N).alpha, (reify A P N).beta))
+    (P' : Option Entry)
+    (happ : apply Pr (if nAlpha then (Reconcile A (propagateExecutability A Pr Nr) Pr mode).beta
+                       else (Reconcile A Pr (propagateExecutability A Pr Nr) mode).alpha) = .ok P') :
+    ∃ p', propsAt P' q = some p' ∧ p'.kind = .file ∧ p'.executable = pP.executable := by
+  have hfP : isFileAt P q = true := by
+    simp only [propsAt] at hPq
+    cases hg : getPath P q with
+    | none => simp [hg] at hPq
+    | some e =>
+      simp only [hg, Option.map_some, Option.some.injEq] at hPq
+      simp [isFileAt, hg, isKind, Entry.kind, hPq, hkP]
+  have hfN : isFileAt N q = true := by
+    simp only [propsAt] at hNq
+    cases hg : getPath N q with
+    | none => simp [hg] at hNq
+    | some e =>
+      simp only [hg, Option.map_some, Option.some.injEq] at hNq
+      simp [isFileAt, hg, isKind, Entry.kind, hNq, hkN]
+  cases nAlpha with
+  | true =>
+    simp only [if_true, Prod.mk.injEq] at hr
+    obtain ⟨rfl, rfl⟩ := hr
+    obtain ⟨_, hdn, hdp, hgn, hgp⟩ := reify_chain q A N P hdN hdP hfN hfP
+    obtain ⟨hvn, hvp⟩ := reify_valid A N P hN hP
+    exact exec_preserved mode A _ _ true q pP pN hA hvp hvn hdp hdn
+      (by simp only [propsAt, hgp]; exact hPq) hkP (by simp only [propsAt, hgn]; exact hNq) hkN h1 h2 P' happ
+  | false =>
+    simp only [Bool.false_eq_true, if_false, Prod.mk.injEq] at hr
+    obtain ⟨rfl, rfl⟩ := hr
+    obtain ⟨_, hdp, hdn, hgp, hgn⟩ := reify_chain q A P N hdP hdN hfP hfN
+    obtain ⟨hvp, hvn⟩ := reify_valid A P N hP hN
+    exact exec_preserved mode A _ _ false q pP pN hA hvp hvn hdp hdn
+      (by simp only [propsAt, hgp]; exact hPq) hkP (by simp only [propsAt, hgn]; exact hNq) hkN h1 h2 P' happ
+
+/-- Reification turns the phantom directories above a file that exists on both
+sides into directories and leaves the files alone, so propagation reaches them. -/
+theorem reified_chain_is_directories (A α β : Option Entry) (q : Path)
+    (hdα : dirKindsAbove α q = true) (hdβ : dirKindsAbove β q = true)
+    (hα : isFileAt α q = true) (hβ : isFileAt β q = true) :
+    dirsAbove (reify A α β).alpha q = true ∧ dirsAbove (reify A α β).beta q = true ∧
+      getPath (reify A α β).alpha q = getPath α q ∧ getPath (reify A α β).beta q = getPath β q :=
+  (reify_chain q A α β hdα hdβ hα hβ).2
 
 /-- The negation of the full-strength reading inside `AlphaNonpreservingWins`:
 for *every* pair of files with different digests at the root, no ancestor,
